@@ -77,7 +77,7 @@ DEFAULT_PROFILE = {
         "assign_scalar": 6, "assign_elem": 8, "assign_section": 5,
         "do": 8, "dowhile": 1, "if": 4, "if1": 2, "select": 3,
         "where": 3, "call": 3, "exitcycle": 2, "print": 0, "return": 0,
-        "matmul": 0,
+        "matmul": 0, "dep_pair": 0,
     },
     "arrays": None,            # None = draw a subset; or list of names
     "functions": True,
@@ -919,6 +919,24 @@ class Gen:
         if typ == "int":
             return [f"{var.name} = {self.int_expr(2)[0]}"]
         return [f"{var.name} = {self.log_expr(1)}"]
+
+    def s_dep_pair(self):
+        """arr(idx1) = arr(idx2) <op> expr with both subscripts from the
+        dependence templates (same array read and written in one
+        statement: the shape dependence analysis has to reason about)."""
+        if not self.loop_stack:
+            raise NoFit()
+        arrs = self.arrays("real", writable=True)
+        arr = self.pick(arrs)
+        saved = self.prof["dep_index"]
+        self.prof["dep_index"] = 100
+        try:
+            lhs = self.elem(arr)
+            rhs = self.elem(arr)
+        finally:
+            self.prof["dep_index"] = saved
+        self.features.add("dep_pair")
+        return [f"{lhs} = ({rhs} + {self.real_atom()})"]
 
     def s_assign_elem(self):
         arr = self.pick(self.arrays(writable=True))
